@@ -24,7 +24,7 @@ def run(ctx):
     cl = gen.classes()
     traces = []
     for i in range(60 if q else 1000):
-        depth = rnd.choice([1, 1, 2, 2, 3])
+        depth = rnd.choice([1, 1, 2, 2, 3]) if i % 20 != 7 else 4           # (now and then four levels deep)
         if i % 6 == 5:      # user-defined controllers chained through nested MetaModules onto controllers of different kinds
             mm = gen.chain_meta(rnd, spec)
         else:
